@@ -12,7 +12,7 @@ META = {
     "level": "exploration",
     "rule": ("generated batches (1..4 base points + derived points c*E, E2, E+E2, and an empty spectrum) of JONSWAP/PM "
              "wind seas, swell+sea mixtures and random non-negative spectra with zero bins on (nf 8..30) x (nd in "
-             "{16,24,36}) grids; U10 1..40 m/s or friction-velocity input, all wind directions; finite/infinite depth; "
+             "{16,24,36}) grids, a third of them with non-uniform direction bins (nodes moved by < 0.3 bin); U10 1..40 m/s or friction-velocity input, all wind directions; finite/infinite depth; "
              "ST4 input with WAM tail stress; ST4 / ST6 / Romero (strictly positive spectra) dissipation; non-default "
              "parameter sets (+-50 %). Non-trivial = bulk dissipation < 0 and bulk input > 0 for some point; "
              "distinct = sha1 of the case."),
@@ -44,7 +44,8 @@ def case(draw):
     dk = draw(st.sampled_from(["st4", "st4", "st6", "romero"]))
     kinds = ("jonswap", "pm", "swell_sea") if dk == "romero" else ("jonswap", "jonswap", "pm", "swell_sea", "random")
     steep = draw(st.sampled_from([None, (0.03, 0.09), (0.03, 0.09)]))
-    c = draw(W.sea_case(max_points=4, kinds=kinds, max_nf=24, steep=steep, t0_choices=("zero", "zero", "half", "any")))
+    c = draw(W.sea_case(max_points=4, kinds=kinds, max_nf=24, steep=steep, t0_choices=("zero", "zero", "half", "any"),
+                        nonuniform_dirs=True))
     if dk == "romero":
         for p in c["points"]:
             p["positive_floor"] = True
@@ -52,7 +53,7 @@ def case(draw):
     c.update({
         "dissipation": dk,
         "log_z0": [draw(fl(-12.0, -3.0)) for _ in range(n)],
-        "input_type": draw(st.sampled_from(["u10", "friction_velocity"])),
+        "input_type": draw(st.sampled_from(["u10", "u10", "friction_velocity", "ustar"])),   # "ustar" is the documented alias
         "scale": draw(st.sampled_from([2.0, 0.5, 3.7, 10.0])),
         "pick": draw(st.integers(0, n - 1)),
         "gen_params": {k: draw(fl(0.5, 1.5)) for k in GEN_DEFAULTS} if draw(st.integers(0, 2)) == 0 else {},
@@ -131,6 +132,8 @@ def run(c):
         classes.append("term_objects_used_before_on_another_grid_of_the_same_shape")
     if ints:
         classes.append("integer_stored_density_and_u10")
+    if c.get("dir_jitter"):
+        classes.append("non_uniform_direction_grid")
 
     R = np.asarray(gen.rate(spec, speed, wdir, roughness_length=z0, wind_speed_input_type=it).values)
     require(R.shape == Eb.shape and np.isfinite(R).all(), "wind_input_finite", f"shape={R.shape}")
